@@ -381,6 +381,22 @@ fn run(ctx: &RunCtx) -> Result<(), Violation> {
         let all = chance(1, 2, "q.all");
         let inner = format!("{} in ${}", lhs.text, name);
         let text = if lhs.each { format!("{}({inner})", if all { "all" } else { "any" }) } else { inner };
+        // the same query inside parentheses / after `not not`, laid out over lines: what follows a list name is then a
+        // line break or a closing parenthesis instead of the end of the input (valid names only: what an invalid
+        // name swallows of its surroundings is not this check's business)
+        let text = if !invalid_name && chance(1, 4, "q.embedded") {
+            kernel::count("q.embedded");
+            // (forms that neither change the result nor make the matcher be asked again)
+            let t = match choose(4, "q.embed_kind") {
+                0 => format!("( {text}\n)"),
+                1 => format!("not not {text}\n"),
+                2 => format!("{text}\r\n"),
+                _ => format!("( ( {text} ) )"),
+            };
+            wgen::vary_whitespace(&t)
+        } else {
+            text
+        };
         let has_list = matches!(lhs.prim, MType::Int | MType::Ip | MType::Bytes) && spec.list_index(&lhs.prim).is_some();
         let parsed = catch_unwind(AssertUnwindSafe(|| scheme.parse(&text).map(|a| a.compile())));
         let parsed = match parsed {
